@@ -244,7 +244,21 @@ def key_table(chk: Check):
     chk.decide(okb, "K-FORMULA", "entry-walk-bound", loop, "the walk stays inside the table (an entry is parsed only at offset < size)")
     chk.decide(bool(news) and R.expr(ctx, news[0])[2][1] == EO, "K-FORMULA", "entry-at-running-offset", news[0] if news else loop, "each entry is parsed at the running offset")
     st = [n for n in ast.walk(loop) if isinstance(n, ast.Assign) and isinstance(n.targets[0], ast.Subscript) and "_lookup" in ast.unparse(n.targets[0])]
-    chk.decide(bool(st) and R.expr(ctx, st[0].targets[0].slice, ctx.cfg.node_of[st[0]]) == EO, "K-PROV", "lookup-keyed-by-entry-offset", st[0] if st else loop,
+    okl = bool(st) and R.expr(ctx, st[0].targets[0].slice, ctx.cfg.node_of[st[0]]) == EO
+    where_l = st[0] if st else loop
+    if not st:
+        # `_lookup = dict(pairs)` with (offset, entry) pairs collected in the loop
+        lk = R.self_attr(kk, "_lookup")
+        pairs = []
+        for n in ast.walk(loop):
+            if isinstance(n, ast.Call) and isinstance(n.func, ast.Attribute) and n.func.attr == "append" and len(n.args) == 1:
+                t = R.expr(ctx, n.args[0], ctx.cfg.node_for(n))
+                if t[0] == "tuple" and len(t[1]) == 2:
+                    pairs.append((n, t))
+        if lk[0] == "call" and lk[1] == "dict" and pairs:
+            okl = all(t[1][0] == EO and t[1][1][0] == "call" and t[1][1][1] == "new:" + ek for _n, t in pairs)
+            where_l = pairs[0][0]
+    chk.decide(okl, "K-PROV", "lookup-keyed-by-entry-offset", where_l,
                "entries are registered under their offset inside the table (what parent_offset refers to)")
 
 
